@@ -35,6 +35,8 @@ POOL = {
     'lv': [('long', 2), ('long', 1)],
     'q': [('double', 1), ('double', 2), ('float', 1)],
     'r': [('double', 3), ('double', 1), ('int', 1)],
+    # user names that resemble the built-in ones (gid, pid, tag)
+    'id': [('double', 1)], 'g': [('double', 1), ('float', 1)], 'ta': [('double', 1)],
 }
 NAMES = sorted(POOL)
 CONST_NAMES = ['c0', 'c1', 'cm']
